@@ -57,6 +57,9 @@ list_t              *snoopy_tsrm_threadRepo = &snoopy_tsrm_threadRepo_data;
  * Non-exported function prototypes
  */
 void                        snoopy_tsrm_init                      ();
+void                        snoopy_tsrm_atfork_prepare            ();
+void                        snoopy_tsrm_atfork_parent             ();
+void                        snoopy_tsrm_atfork_child              ();
 int                         snoopy_tsrm_doesThreadRepoEntryExist  (snoopy_tsrm_threadId_t threadId, int mutex_already_locked);
 snoopy_tsrm_threadId_t      snoopy_tsrm_getCurrentThreadId        ();
 listNode_t*                 snoopy_tsrm_getCurrentThreadRepoEntry ();
@@ -165,6 +168,73 @@ void snoopy_tsrm_init ()
     pthread_mutexattr_init   (&snoopy_tsrm_threadRepo_mutexAttr);
     pthread_mutexattr_settype(&snoopy_tsrm_threadRepo_mutexAttr, PTHREAD_MUTEX_RECURSIVE);
     pthread_mutex_init       (&snoopy_tsrm_threadRepo_mutex, &snoopy_tsrm_threadRepo_mutexAttr);
+
+    // Keep the threadRepo mutex usable in children forked by a multithreaded process
+    pthread_atfork(&snoopy_tsrm_atfork_prepare, &snoopy_tsrm_atfork_parent, &snoopy_tsrm_atfork_child);
+}
+
+
+
+/*
+ * snoopy_tsrm_atfork_prepare
+ *
+ * Description:
+ *     Fork handler, run in the forking thread right before fork(). Acquires
+ *     the threadRepo mutex, so that no other thread is holding it (and the
+ *     thread repository is in a consistent state) when the address space
+ *     gets copied into the child.
+ *
+ * Params:
+ *     (none)
+ *
+ * Return:
+ *     void
+ */
+void snoopy_tsrm_atfork_prepare ()
+{
+    pthread_mutex_lock(&snoopy_tsrm_threadRepo_mutex);
+}
+
+
+
+/*
+ * snoopy_tsrm_atfork_parent
+ *
+ * Description:
+ *     Fork handler, run in the forking thread of the parent right after
+ *     fork(). Releases the mutex acquired by the prepare handler.
+ *
+ * Params:
+ *     (none)
+ *
+ * Return:
+ *     void
+ */
+void snoopy_tsrm_atfork_parent ()
+{
+    pthread_mutex_unlock(&snoopy_tsrm_threadRepo_mutex);
+}
+
+
+
+/*
+ * snoopy_tsrm_atfork_child
+ *
+ * Description:
+ *     Fork handler, run in the only thread of the child right after fork().
+ *     The mutex copied from the parent is owned by a thread ID that does not
+ *     exist in the child (a recursive mutex cannot be unlocked here), so
+ *     start over with a fresh one.
+ *
+ * Params:
+ *     (none)
+ *
+ * Return:
+ *     void
+ */
+void snoopy_tsrm_atfork_child ()
+{
+    pthread_mutex_init(&snoopy_tsrm_threadRepo_mutex, &snoopy_tsrm_threadRepo_mutexAttr);
 }
 
 
